@@ -345,7 +345,8 @@ func randJSONValue(rng *rand.Rand, cls string, depth int) any {
 		for i := 0; i < n; i++ {
 			k := fmt.Sprintf("k%d", i)
 			if leaf == "string-classes" || leaf == "invalid-utf8" {
-				k = classString(rng, leaf == "string-classes")
+				// index prefix: keys must stay distinct after offending bytes became U+FFFD
+				k = fmt.Sprintf("%d:", i) + classString(rng, leaf == "string-classes")
 			}
 			out[k] = randJSONLeaf(rng, leaf)
 		}
